@@ -260,6 +260,41 @@ Section ReadP.
   Qed.
 End ReadP.
 
+(* ---------- the general damage model ---------- *)
+Lemma run_is_damage issued s : damaged_by issued s (run_trace issued s).
+Proof. intros q H. now apply run_frame. Qed.
+
+Lemma crash_is_damage tr1 c s s' : crash_at tr1 c s s' -> damaged_by (tr1 ++ [c]) s s'.
+Proof.
+  intros P q H. unfold crash_at in P.
+  rewrite (partial_frame c q _ _ P) by (apply H, in_or_app; right; now left).
+  apply run_frame. intros x Hx. apply H, in_or_app. now left.
+Qed.
+
+Section ReadD.
+  Variable R : Type.
+  Variable parse_md : bytes -> option (list path).
+  Variable decode : bytes -> list (option bytes) -> R.
+
+  Theorem crash_safe_any_damage refs tr tr1 c tr2 s s' :
+    refs_of parse_md s = Some refs ->
+    safe_trace refs tr -> tr = tr1 ++ c :: tr2 ->
+    existsb is_md_open tr1 = false -> is_md_open c = false ->
+    damaged_by (tr1 ++ [c]) s s' ->
+    read_dataset R parse_md decode s' = read_dataset R parse_md decode s
+    /\ forall q, In q (md_name :: cmd_name :: refs) -> lookup q s' = lookup q s.
+  Proof.
+    intros Hr H E Hno Hc D.
+    assert (F : forall q, In q (md_name :: cmd_name :: refs) -> lookup q s' = lookup q s).
+    { intros q Hq. apply D. intros x Hx. apply in_app_or in Hx. destruct Hx as [Hx|[Hx|[]]].
+      - now apply (safe_prefix_frame refs tr tr1 (c :: tr2) q H E Hno Hq).
+      - subst x. destruct (H tr1 c tr2 E) as [H1 [H2 _]]. destruct (H2 Hno) as [H3 _]. destruct (H3 Hc).
+        destruct Hq as [Hq|[Hq|Hq]]; subst; auto. }
+    split; [|exact F].
+    apply (read_dataset_same R parse_md decode s s' refs Hr). intros q [Hq|Hq]; apply F; [now left | right; right; exact Hq].
+  Qed.
+End ReadD.
+
 (* ---------- no existing data file is opened for writing; old files survive the whole trace ---------- *)
 Theorem no_write_open_existing refs tr : safe_trace refs tr ->
   forall p t, In (OpenW p t) tr -> ~ In p refs.
